@@ -24,7 +24,9 @@
 (* (exhaustive check) and on traces of the real code (Trace_Snapshot).                       *)
 EXTENDS Integers, Sequences, FiniteSets, SequencesExt, TLC
 
-CONSTANTS NN, NA, MaxT
+CONSTANTS NN, NA, MaxT,
+          RmFirst,   \* compact() removes the old snapshot before renaming the new one (the code as found)
+          NilH     \* compact() sets s.buffered / s.fh to nil before the swap (the code as found)
 
 Names == 1..NN
 FI  == 5      \* flushInterval                 (unit: 100 ms)
@@ -33,7 +35,7 @@ CAP == 301    \* ages saturate here ("older than everything")
 
 VARIABLES cfg,     \* [mcs, ral, bpn, nlen, alen, tlen, evil, tags] -- configuration / concretization
           W,       \* the world, one record (so that a step evaluates the handler once):
-                   \*   S      persistent machine state [mem, buf, fs, fage, aage, n]
+                   \*   S      persistent machine state [mem, buf, closed, fs, fage, aage, n]
                    \*   clk    serf's Lamport clock minus one (= what updateClock reads)
                    \*   phase  "down" | "up"
                    \*   faults, sess   faults injected / sessions started so far
@@ -79,9 +81,10 @@ NoFile == [ex |-> FALSE, lines |-> <<>>]
 Rec(fs) == Replay(fs.cur.lines)
 
 ------------------------------------------------------------------------------
-(* The machine.  m = [mem, buf, fs, fage, aage, n, fail, clk, out, panic, err]                *)
+(* The machine.  m = [mem, buf, closed, fs, fage, aage, n, fail, clk, out, panic, err]        *)
 (*   mem  = [alive, lc, ec, qc, lv (leaving), off (offset), fh, bw (handles non-nil)]          *)
 (*   buf  = the live bufio.Writer: [data (lines not yet handed to the OS), err (sticky)]       *)
+(*   closed = s.fh is non-nil but refers to a closed file (only when ~NilH)              *)
 (*   fs   = [cur, tmp], each [ex, lines]                                                       *)
 (*   fage/aage = now - lastFlush / now - lastAttemptedCompaction (saturating)                  *)
 (*   n = file operations so far in this session, fail = index of the one that fails (0: none) *)
@@ -117,7 +120,7 @@ BFlush(m) ==
   ELSE IF ~m.mem.bw THEN Panic(m)
   ELSE IF m.buf.err THEN [m EXCEPT !.err = TRUE]
   ELSE IF m.buf.data = <<>> THEN [m EXCEPT !.err = FALSE]
-  ELSE LET m1 == DoOp(m, "write", "cur", m.fs.cur.ex,
+  ELSE LET m1 == DoOp(m, "write", "cur", m.fs.cur.ex /\ ~m.closed,
                       [m.fs EXCEPT !.cur.lines = @ \o m.buf.data], SumLen(m.buf.data))
        IN  IF m1.err THEN [m1 EXCEPT !.buf.err = TRUE] ELSE [m1 EXCEPT !.buf.data = <<>>]
 
@@ -143,16 +146,18 @@ Compact(m0) ==
   LET a5 == DoOp(a4, "close", "tmp", TRUE, a4.fs, 0)
       a6 == BFlush(a5) IN                                 \* _ = s.buffered.Flush()
   IF a6.panic THEN a6 ELSE
-  LET a7  == [a6 EXCEPT !.mem.bw = FALSE]                  \* s.buffered = nil
-      a8  == IF a7.mem.fh THEN DoOp(a7, "close", "cur", TRUE, a7.fs, 0) ELSE a7   \* nil *os.File: ErrInvalid
-      a9  == [a8 EXCEPT !.mem.fh = FALSE]                  \* s.fh = nil
-      a10 == DoOp(a9, "remove", "cur", a9.fs.cur.ex, [a9.fs EXCEPT !.cur = NoFile], 0) IN
+  LET a7  == IF NilH THEN [a6 EXCEPT !.mem.bw = FALSE] ELSE a6             \* s.buffered = nil
+      a8  == IF a7.mem.fh THEN DoOp(a7, "close", "cur", ~a7.closed, a7.fs, 0) ELSE a7   \* nil *os.File: ErrInvalid
+      a9  == IF NilH THEN [a8 EXCEPT !.mem.fh = FALSE, !.err = FALSE]        \* s.fh = nil
+                           ELSE [a8 EXCEPT !.closed = TRUE, !.err = FALSE]         \* (handles kept, file closed)
+      a10 == IF RmFirst THEN DoOp(a9, "remove", "cur", a9.fs.cur.ex, [a9.fs EXCEPT !.cur = NoFile], 0)
+                            ELSE a9 IN
   IF a10.err THEN a10 ELSE
   LET a11 == DoOp(a10, "rename", "tmp", a10.fs.tmp.ex, [cur |-> a10.fs.tmp, tmp |-> NoFile], 0) IN
   IF a11.err THEN a11 ELSE
   LET a12 == DoOp(a11, "open", "cur", TRUE, [a11.fs EXCEPT !.cur.ex = TRUE], 0) IN
   IF a12.err THEN a12 ELSE
-  [a12 EXCEPT !.mem.fh = TRUE, !.mem.bw = TRUE, !.buf = [data |-> <<>>, err |-> FALSE],
+  [a12 EXCEPT !.mem.fh = TRUE, !.mem.bw = TRUE, !.buf = [data |-> <<>>, err |-> FALSE], !.closed = FALSE,
               !.mem.off = SumLen(lines), !.fage = 0, !.err = FALSE]
 
 MaxSize(m) ==
@@ -200,7 +205,7 @@ ProcEvent(m, e) ==
          [] e.ty = 6       -> IF e.t > m.mem.ec THEN TryAppend([m EXCEPT !.mem.ec = e.t], L("eclock", 0, 0, e.t)) ELSE m
          [] e.ty = 7       -> IF e.t > m.mem.qc THEN TryAppend([m EXCEPT !.mem.qc = e.t], L("qclock", 0, 0, e.t)) ELSE m
 
-SyncFh(m) == IF m.panic \/ ~m.mem.fh THEN m ELSE DoOp(m, "sync", "cur", TRUE, m.fs, 0)
+SyncFh(m) == IF m.panic \/ ~m.mem.fh THEN m ELSE DoOp(m, "sync", "cur", ~m.closed, m.fs, 0)
 
 ProcLeave(m) ==
   LET m1 == [m EXCEPT !.mem.lv = TRUE, !.mem.alive = IF cfg.ral THEN @ ELSE NoAlive]
@@ -209,11 +214,11 @@ ProcLeave(m) ==
 
 ProcShutdown(m) ==
   LET m1 == SyncFh(BFlush(UpdateClock(m)))
-  IN  IF m1.panic \/ ~m1.mem.fh THEN m1 ELSE DoOp(m1, "close", "cur", TRUE, m1.fs, 0)
+  IN  IF m1.panic \/ ~m1.mem.fh THEN m1 ELSE DoOp(m1, "close", "cur", ~m1.closed, m1.fs, 0)
 
 \* w = the world record [S, clk, ...] (see the variables)
 Machine(w, fail) ==
-  [mem |-> w.S.mem, buf |-> w.S.buf, fs |-> w.S.fs, fage |-> w.S.fage, aage |-> w.S.aage, n |-> w.S.n,
+  [mem |-> w.S.mem, buf |-> w.S.buf, closed |-> w.S.closed, fs |-> w.S.fs, fage |-> w.S.fage, aage |-> w.S.aage, n |-> w.S.n,
    fail |-> IF fail = 0 THEN 0 ELSE w.S.n + fail, clk |-> w.clk, out |-> <<>>, panic |-> FALSE, err |-> FALSE]
 
 ProcOf(w, act) ==
@@ -333,7 +338,7 @@ MonStep(m, act, o) ==
 (* record, then over every operation boundary in order, then over the completion / panic record --      *)
 (* exactly the lines the harness writes for that input.  A crash may end the input after any boundary.  *)
 (* Each step is a function from the world to the next world.                                            *)
-FinState(m) == [mem |-> m.mem, buf |-> m.buf, fs |-> m.fs, fage |-> m.fage, aage |-> m.aage, n |-> m.n]
+FinState(m) == [mem |-> m.mem, buf |-> m.buf, closed |-> m.closed, fs |-> m.fs, fage |-> m.fage, aage |-> m.aage, n |-> m.n]
 
 RECURSIVE MonOps(_, _, _, _)
 MonOps(m, out, i, k) ==
@@ -347,7 +352,7 @@ StartState(w) ==
       st  == Rec(fs1)
   IN  [mem |-> [alive |-> st.alive, lc |-> st.lc, ec |-> st.ec, qc |-> st.qc, lv |-> FALSE,
                 off |-> SumLen(fs1.cur.lines), fh |-> TRUE, bw |-> TRUE],
-       buf |-> [data |-> <<>>, err |-> FALSE], fs |-> fs1, fage |-> CAP, aage |-> CAP, n |-> 0]
+       buf |-> [data |-> <<>>, err |-> FALSE], closed |-> FALSE, fs |-> fs1, fage |-> CAP, aage |-> CAP, n |-> 0]
 
 StartW(w) ==
   LET s1 == StartState(w)
@@ -388,7 +393,8 @@ AdvW(w, d) == [w EXCEPT !.S.fage = Sat(@, d), !.S.aage = Sat(@, d)]
 
 InitW ==
   [S |-> [mem |-> [alive |-> NoAlive, lc |-> 0, ec |-> 0, qc |-> 0, lv |-> FALSE, off |-> 0, fh |-> FALSE, bw |-> FALSE],
-          buf |-> [data |-> <<>>, err |-> FALSE], fs |-> [cur |-> NoFile, tmp |-> NoFile], fage |-> CAP, aage |-> CAP, n |-> 0],
+          buf |-> [data |-> <<>>, err |-> FALSE], closed |-> FALSE, fs |-> [cur |-> NoFile, tmp |-> NoFile],
+          fage |-> CAP, aage |-> CAP, n |-> 0],
    clk |-> 0, phase |-> "down", faults |-> 0, sess |-> 0, M |-> MonInit]
 
 ------------------------------------------------------------------------------
